@@ -558,8 +558,11 @@ func fileRedirPort(mode parse.RedirMode, f *os.File) *Port {
 	}
 	return &Port{
 		File: f,
-		// Throws errValueOutputIsClosed when writing.
-		Chan: nil, sendStop: closedSendStop, sendError: &ErrPortDoesNotSupportValueOutput,
+		// Throws ErrPortDoesNotSupportValueOutput when writing values. The
+		// closed channel (rather than nil) makes sure that reading values
+		// from the port, after duplicating it onto an input port, produces
+		// nothing instead of blocking forever.
+		Chan: ClosedChan, sendStop: closedSendStop, sendError: &ErrPortDoesNotSupportValueOutput,
 	}
 }
 
